@@ -24,7 +24,7 @@ DEPTHS = (1, 2, 4, 8, 32)
 
 def REQUIRED(tier):
     return ["files_cleaned", "hook:apply_mask", "hook:apply_method", "hook:apply_funcn", "mask_union_checks", "vectors:mad", "vectors:iqrm", "vector:all_equal", "vector:planted_outlier",
-            "file_samples_compared", "regime:multi_block", "roundtrip_checks", "freq:empty_list", "freq:outside_band", "freq:overlapping", "freq:limit_on_centre"]
+            "file_samples_compared", "regime:multi_block", "roundtrip_checks", "freq:empty_list", "freq:outside_band", "freq:overlapping", "freq:limit_on_centre", "algebra_histories"]
 
 
 def cases(tier, seed):
@@ -35,6 +35,8 @@ def cases(tier, seed):
         yield {"kind": "vectors", "n": 100, "seed": int(seed) * 100003 + i}
     for i in range(max(4, nf // 10)):
         yield {"kind": "roundtrip", "seed": int(seed) * 100003 + i}
+    for i in range(0, 200 if tier == "quick" else 4000, 20):
+        yield {"kind": "algebra", "n": 20, "seed": int(seed) * 100003 + i}
 
 
 # ------------------------------------------------------------------ reference masks
@@ -106,7 +108,7 @@ def setup_worker(ctx):
 
 
 def run_case(case, ctx):
-    {"file": _file, "vectors": _vectors, "roundtrip": _roundtrip}[case["kind"]](case, ctx)
+    {"file": _file, "vectors": _vectors, "roundtrip": _roundtrip, "algebra": _algebra}[case["kind"]](case, ctx)
 
 
 def _freq_ranges(rng, freqs, foff):
@@ -321,6 +323,53 @@ def _vectors(case, ctx):
                 ctx.nontrivial_case(one)
 
 
+def _algebra(case, ctx):
+    """Histories of apply_mask / apply_method / apply_funcn on one RFIMask (each possibly several times): the hooks assert
+    after every call that chan_mask only grows and equals previous | component."""
+    from sigpyproc.core.rfi import RFIMask
+    from sigpyproc.header import Header
+
+    for j in ([case["only"]] if "only" in case else range(case["n"])):
+        rng = np.random.default_rng([case["seed"], j, 19])
+        nch = int(rng.integers(8, 64))
+        hdr = Header(filename="x.fil", data_type="filterbank", nchans=nch, foff=-1.0, fch1=1500.0, nbits=8, tsamp=1e-3, tstart=58000.0, nsamples=1000)
+        arrs = {k: rng.normal(size=nch).astype(np.float32) for k in ("chan_mean", "chan_var", "chan_skew", "chan_kurt", "chan_maxima", "chan_minima")}
+        for k in ("chan_var", "chan_skew", "chan_kurt"):
+            arrs[k][rng.integers(0, nch, size=2)] += 50.0
+        m = RFIMask(float(rng.uniform(1.5, 5)), hdr, **arrs)
+        ops = []
+        _hook["events"].clear(); _hook["viol"].clear()
+        ctx.evaluated(); ctx.count("algebra_histories")
+        one = {"kind": "algebra", "n": 1, "seed": case["seed"], "only": j}
+        seen = np.zeros(nch, dtype=bool)
+        for _ in range(int(rng.integers(2, 7))):
+            kind = int(rng.integers(0, 3))
+            if kind == 0:
+                a, b = sorted(rng.uniform(1500.0 - nch, 1500.0, size=2))
+                m.apply_mask([(float(a), float(b))]); ops.append(["apply_mask", float(a), float(b)])
+            elif kind == 1:
+                meth = str(rng.choice(["mad", "iqrm"]))
+                with np.errstate(all="ignore"):
+                    m.apply_method(meth)
+                ops.append(["apply_method", meth])
+            else:
+                idx = rng.integers(0, nch, size=2)
+                m.apply_funcn(lambda cm, idx=idx: np.isin(np.arange(cm.size), idx)); ops.append(["apply_funcn", idx.tolist()])
+            cur = np.array(m.chan_mask, dtype=bool)
+            if np.any(seen & ~cur):
+                ctx.violation("mask-shrunk:history", f"after {ops[-1]} channels {np.flatnonzero(seen & ~cur)[:5].tolist()} masked earlier are no longer masked (history {ops})", one)
+                break
+            seen |= cur
+        for ev in _hook["events"]:
+            ctx.count(f"hook:{ev}")
+        for mech, msg in _hook["viol"]:
+            ctx.violation(mech + ":history", msg + f" (history {ops})", one)
+        if len(ops) >= 2:
+            ctx.nontrivial_case(one)
+        if j == 0:
+            ctx.sample({"kind": "algebra", "history": ops, "masked": int(np.sum(m.chan_mask)), "nchans": nch})
+
+
 def _roundtrip(case, ctx):
     from astropy import units as u
     from astropy.coordinates import Angle, SkyCoord
@@ -333,7 +382,8 @@ def _roundtrip(case, ctx):
     hdr = Header(filename="obs.fil", data_type="filterbank", nchans=nch, foff=-float(rng.uniform(0.1, 4)), fch1=float(rng.uniform(400, 3000)), nbits=int(rng.choice([1, 2, 4, 8, 32])),
                  tsamp=float(10 ** rng.uniform(-5, -2)), tstart=float(rng.uniform(50000, 60000)), nsamples=int(rng.integers(100, 10**6)),
                  coord=SkyCoord(float(rng.uniform(0, 24)) * u.hourangle, float(rng.uniform(-90, 90)) * u.deg), azimuth=Angle(float(rng.uniform(0, 360)) * u.deg),
-                 zenith=Angle(float(rng.uniform(0, 90)) * u.deg), telescope="Parkes", backend="BPSR", source="J0437-4715", ibeam=3, nbeams=13, dm=12.5)
+                 zenith=Angle(float(rng.uniform(0, 90)) * u.deg), telescope="Parkes", backend="BPSR", source="J0437-4715", ibeam=3, nbeams=13, dm=12.5,
+                 signed=bool(rng.random() < 0.5), rawdatafile="raw_%d.dat" % int(rng.integers(0, 99)), accel=float(rng.integers(0, 9)), period=float(rng.random()))
     arrs = {k: rng.normal(size=nch).astype(np.float32) for k in ("chan_mean", "chan_var", "chan_skew", "chan_kurt", "chan_maxima", "chan_minima")}
     thr = float(rng.uniform(1, 6))
     m = RFIMask(thr, hdr, **arrs)
@@ -356,7 +406,7 @@ def _roundtrip(case, ctx):
             return
     if float(back.threshold) != thr:
         ctx.violation("roundtrip-threshold", f"{thr} -> {back.threshold}", one)
-    for k in ("filename", "data_type", "nchans", "foff", "fch1", "nbits", "tsamp", "tstart", "nsamples", "nifs", "telescope", "backend", "source", "frame", "ibeam", "nbeams", "dm"):
+    for k in ("filename", "data_type", "nchans", "foff", "fch1", "nbits", "tsamp", "tstart", "nsamples", "nifs", "telescope", "backend", "source", "frame", "ibeam", "nbeams", "dm", "signed", "rawdatafile", "accel", "period"):
         if getattr(back.header, k) != getattr(hdr, k):
             ctx.violation(f"roundtrip-header:{k}", f"header.{k}: {getattr(hdr, k)!r} -> {getattr(back.header, k)!r}", one)
             return
